@@ -48,6 +48,7 @@ struct ViolLine {
 
 /// `qsim worker <prop> <tier> <seed> <start> <stride> <total> <fpfile>`
 pub fn worker_main(args: &[String]) -> i32 {
+    crate::core::limit_memory();
     let prop = &args[0];
     let tier = Tier::parse(&args[1]).expect("tier");
     let seed: u64 = args[2].parse().expect("seed");
@@ -109,6 +110,7 @@ pub fn worker_main(args: &[String]) -> i32 {
 
 /// `qsim one <prop> <tier> <seed> <r>`: prints the explicit case, then executes it (crash confirmation).
 pub fn one_main(args: &[String]) -> i32 {
+    crate::core::limit_memory();
     let prop = &args[0];
     let tier = Tier::parse(&args[1]).expect("tier");
     let seed: u64 = args[2].parse().expect("seed");
@@ -228,6 +230,9 @@ pub fn replay_main(path: &str) -> i32 {
             return st.ok().and_then(|s| s.code()).unwrap_or(2);
         }
     }
+    if !matches!(rf.case, Case::Miri(_)) {
+        crate::core::limit_memory();
+    }
     println!("replaying {} signature {} (profile {})", rf.property, rf.signature.key(), if rf.profile.is_empty() { "rel" } else { &rf.profile });
     let mut out = cases::exec(&rf.case);
     let mut tries = 1;
@@ -264,6 +269,9 @@ pub fn exec_case_main(path: &str) -> i32 {
     crate::core::install_quiet_panic_hook();
     let s = std::fs::read_to_string(path).expect("read case");
     let case: Case = serde_json::from_str(&s).expect("parse case");
+    if !matches!(case, Case::Miri(_)) {
+        crate::core::limit_memory();
+    }
     let out = cases::exec(&case);
     for v in &out.viols {
         println!("V {}", serde_json::to_string(v).unwrap());
